@@ -28,6 +28,7 @@ func init() {
 			Trusted:     commonTrusted,
 		},
 		Mutants: []Mutant{
+			{Name: "template cached under the requested name, looked up under name+extension (original defect)", File: "set.go", Old: "s.cache.Put(t.Name, t)", New: "s.cache.Put(templatePath, t)", Rule: "C16.put"},
 			{Name: "cache despite parse failure (drop err == nil)", File: "set.go", Old: "if err == nil && cacheAfterParsing && !s.developmentMode {", New: "if cacheAfterParsing && !s.developmentMode {", Rule: "C16.put"},
 			{Name: "cache in development mode", File: "set.go", Old: "if err == nil && cacheAfterParsing && !s.developmentMode {", New: "if err == nil && cacheAfterParsing {", Rule: "C16.put"},
 			{Name: "cache although caller asked not to", File: "set.go", Old: "if err == nil && cacheAfterParsing && !s.developmentMode {", New: "if err == nil && !s.developmentMode {", Rule: "C16.put"},
@@ -171,20 +172,34 @@ func runC16(c *an.Ctx) {
 					}
 				}
 			}
-			if loaderCall != nil && len(loaderCall.Args) > 0 {
-				a, b := an.Unparen(s.Call.Args[0]), an.Unparen(loaderCall.Args[0])
-				ia, ok1 := a.(*ast.Ident)
-				ib, ok2 := b.(*ast.Ident)
-				if ok1 && ok2 && an.ObjOf(jet, ia) == an.ObjOf(jet, ib) {
-					keyOK = true
-					// and that variable is not reassigned in between
-					if defs := an.LocalDefs(f, an.ObjOf(jet, ia)); len(defs) > 0 {
-						keyOK = false
+			// the key must be one a later lookup of the same name tries: the stored template's own Name (the
+			// canonical path it was loaded and parsed under, which is the name+extension candidate that
+			// exists), or an expression of the same form as a key handed to Cache.Get
+			_ = loaderCall
+			getForms := map[string]bool{}
+			for _, g := range p.Units() {
+				if g.Pkg != p.Jet || g.Body == nil {
+					continue
+				}
+				for _, gc := range p.CallsIn(g, "(jet.Cache).Get") {
+					if len(gc.Args) == 1 {
+						getForms[an.Norm(g, gc.Args[0])] = true
 					}
 				}
 			}
+			keyArg := an.Unparen(s.Call.Args[0])
+			if sel, ok := keyArg.(*ast.SelectorExpr); ok && p.FieldKey(jet, sel) == "Template.Name" {
+				if vid, ok := an.Unparen(s.Call.Args[1]).(*ast.Ident); ok {
+					if kid, ok := an.Unparen(sel.X).(*ast.Ident); ok && an.ObjOf(jet, kid) == an.ObjOf(jet, vid) {
+						keyOK = true
+					}
+				}
+			}
+			if getForms[an.Norm(f, keyArg)] {
+				keyOK = true
+			}
 			c.Check(valOK, "C16.put", key+"/value", s.Call.Pos(), "the cached value is the template returned by the loader path", "the value stored by Cache.Put is not the template returned by the loader path of the same call")
-			c.Check(keyOK, "C16.put", key+"/key", s.Call.Pos(), "the cache key is the looked-up path", "the key passed to Cache.Put is not the (unmodified) path that was looked up: a later lookup of the same name would miss or hit another template")
+			c.Check(keyOK, "C16.put", key+"/key", s.Call.Pos(), "the cache key is one a later lookup of the same name tries", "the key passed to Cache.Put ("+an.Str(s.Call.Args[0])+") is neither the stored template's Name nor of the form of a key handed to Cache.Get: a later lookup of the same name misses the cache (or hits another template)")
 		}
 	}
 
